@@ -35,6 +35,13 @@ def run_core(ctx, props, quick_n=2400, thorough_n=40000, points=(100, 250)):
         fails, errors = C.eval_cases(ctx, "tie", IMPORTS, "lcase", lines, fn="lfailures", shard=60)
     if errors:
         ctx.broken.append("correspondence evaluation failed in Coq: %s" % errors[0][1][-400:])
+    in_fragment = None
+    if ok and ({"C01", "C02"} & set(props)):
+        ok2, out2 = C.coq_make(["Tie/TieAffine.vo"])
+        if ok2:
+            frag, e2 = C.eval_cases(ctx, "tiefrag", IMPORTS.replace("Tie.TieC01.", "Tie.TieC01 Tie.TieAffine."), "lcase", lines, fn="in_affine_fragment", shard=60)
+            if not e2:
+                in_fragment = len(frag)
     soft, fails = C.split_numerical_ties(fails, inputs, rep["oracle_failures"])
     if fails:
         i = fails[0]
@@ -58,6 +65,8 @@ def run_core(ctx, props, quick_n=2400, thorough_n=40000, points=(100, 250)):
         "numerical_ties_accepted": [inputs[i][:300] for i in soft],
         "oracle_skipped_too_large": cnt.get("oracle.skipped_too_large", 0),
     }
+    if in_fragment is not None:
+        cov["tied_models_inside_the_affine_fragment_of_the_end_to_end_theorem"] = in_fragment
     return rep, cov
 
 
